@@ -470,18 +470,115 @@ static void bv_all(void)
 #define NASG (1 << NA)
 typedef struct { DNF d; unsigned tt; } F;
 static F *fs; static int nf = 0, fcap = 0;
+static long dnf_known = 0;
+static char dnf_known_first[400] = "";
+
+/* --- simulation of the merge rule with the recorded defect (KNOWN_FINDINGS: multi-atom absorption):
+ *     terms as (pos,neg) atom masks; rule A: t_i superset of t_j -> drop t_i;
+ *     rule B as implemented: t_i superset of ~t_j (for ANY size of t_j) -> remove ~t_j from t_i.
+ *     A wrong result is attributed to the finding only if this simulation reproduces its truth table. */
+typedef struct { unsigned pos, neg; int dead; } ST;
+typedef struct { int n; ST *t; } SL;
+static SL sl_new(int n) { SL l; l.n = 0; l.t = malloc(sizeof(ST) * (n + 1)); return l; }
+static SL sl_from(DNF x)
+{
+	SL l = sl_new(x->argc); int i; Length j;
+	for (i = 0; i < x->argc; i++) {
+		ST t; t.pos = t.neg = 0; t.dead = 0;
+		for (j = 0; j < x->argv[i]->argc; j++) { int a = x->argv[i]->argv[j]; if (a > 0) t.pos |= 1u << (a - 1); else t.neg |= 1u << (-a - 1); }
+		l.t[l.n++] = t;
+	}
+	return l;
+}
+static int sl_true(SL l) { return l.n == 1 && !l.t[0].pos && !l.t[0].neg; }
+static SL sl_copy(SL a) { SL l = sl_new(a.n); memcpy(l.t, a.t, sizeof(ST) * a.n); l.n = a.n; return l; }
+static SL sl_const(int v) { SL l = sl_new(1); if (v) { l.t[0].pos = l.t[0].neg = 0; l.t[0].dead = 0; l.n = 1; } return l; }
+static void sl_merge(SL *l)
+{
+	int i, j, k = 0;
+	for (i = 0; i < l->n; i++) for (j = 0; j < l->n; j++) {
+		ST *a = &l->t[i], *b = &l->t[j];
+		if (i != j && !a->dead && !b->dead && (a->pos & b->pos) == b->pos && (a->neg & b->neg) == b->neg) a->dead = 1;
+		if (i != j && !a->dead && !b->dead && (a->pos & b->neg) == b->neg && (a->neg & b->pos) == b->pos) { a->pos &= ~b->neg; a->neg &= ~b->pos; }
+	}
+	for (i = 0; i < l->n; i++) if (!l->t[i].dead) l->t[k++] = l->t[i];
+	l->n = k;
+}
+static SL sl_or(SL x, SL y)
+{
+	SL l; int i;
+	if (sl_true(x) || sl_true(y)) return sl_const(1);
+	if (x.n == 0) return sl_copy(y);
+	if (y.n == 0) return sl_copy(x);
+	l = sl_new(x.n + y.n);
+	for (i = 0; i < x.n; i++) l.t[l.n++] = x.t[i];
+	for (i = 0; i < y.n; i++) l.t[l.n++] = y.t[i];
+	sl_merge(&l);
+	return l;
+}
+static SL sl_and(SL x, SL y)
+{
+	SL l; int i, j;
+	if (x.n == 0 || y.n == 0) return sl_const(0);
+	if (sl_true(x)) return sl_copy(y);
+	if (sl_true(y)) return sl_copy(x);
+	l = sl_new(x.n * y.n);
+	for (i = 0; i < x.n; i++) for (j = 0; j < y.n; j++) {
+		ST t; t.pos = x.t[i].pos | y.t[j].pos; t.neg = x.t[i].neg | y.t[j].neg; t.dead = (t.pos & t.neg) != 0;
+		l.t[l.n++] = t;
+	}
+	sl_merge(&l);
+	return l;
+}
+static SL sl_not(SL x, int natoms)
+{
+	SL r; int i, a;
+	if (x.n == 0) return sl_const(1);
+	if (sl_true(x)) return sl_const(0);
+	r = sl_const(1);
+	for (i = 0; i < x.n; i++) {
+		SL b = sl_new(natoms + 1), nr;
+		for (a = 0; a < natoms; a++) {
+			ST t; t.dead = 0; t.pos = t.neg = 0;
+			if (x.t[i].pos & (1u << a)) { t.neg = 1u << a; b.t[b.n++] = t; }
+			else if (x.t[i].neg & (1u << a)) { t.pos = 1u << a; b.t[b.n++] = t; }
+		}
+		nr = sl_and(r, b);
+		free(r.t); free(b.t);
+		r = nr;
+	}
+	return r;
+}
+static int sl_eval(SL l, unsigned a)
+{
+	int i;
+	for (i = 0; i < l.n; i++) if ((l.t[i].pos & ~a) == 0 && (l.t[i].neg & a) == 0) return 1;
+	return 0;
+}
+static int dnf_eval(DNF x, unsigned a)
+{
+	int i; Length j;
+	for (i = 0; i < x->argc; i++) {
+		DNF_And t = x->argv[i]; int ok = 1;
+		for (j = 0; j < t->argc; j++) { int at = t->argv[j]; int var = abs(at) - 1; if ((at > 0) != (int)((a >> var) & 1)) { ok = 0; break; } }
+		if (ok) return 1;
+	}
+	return 0;
+}
+/* does the defect simulation of op(x,y) reproduce the real result r on all assignments? */
+static int dnf_explained(int op, DNF x, DNF y, DNF r, int natoms)
+{
+	SL a = sl_from(x), b = y ? sl_from(y) : sl_const(0), s;
+	unsigned as; int same = 1;
+	s = op == 0 ? sl_not(a, natoms) : op == 1 ? sl_and(a, b) : sl_or(a, b);
+	for (as = 0; as < (1u << natoms); as++) if (sl_eval(s, as) != dnf_eval(r, as)) { same = 0; break; }
+	free(a.t); free(b.t); free(s.t);
+	return same;
+}
 static unsigned dnf_tt(DNF x)
 {
-	unsigned tt = 0; int a, i; Length j;
-	for (a = 0; a < NASG; a++) {
-		int v = 0;
-		for (i = 0; i < x->argc; i++) {
-			DNF_And t = x->argv[i]; int ok = 1;
-			for (j = 0; j < t->argc; j++) { int at = t->argv[j]; int var = abs(at) - 1; int val = (a >> var) & 1; if ((at > 0) != val) ok = 0; }
-			if (ok) v = 1;
-		}
-		if (v) tt |= 1u << a;
-	}
+	unsigned tt = 0; int a;
+	for (a = 0; a < NASG; a++) if (dnf_eval(x, a)) tt |= 1u << a;
 	return tt;
 }
 static void dnf_add(DNF d, unsigned tt) { if (nf == fcap) { fcap = fcap ? fcap * 2 : 4096; fs = realloc(fs, fcap * sizeof(F)); } fs[nf].d = d; fs[nf].tt = tt; nf++; }
@@ -495,6 +592,37 @@ static void dnf_show(const char *kind, DNF a, const char *op, DNF b, DNF r)
 	if (b) dnfPrint(stdout, b);
 	if (r) { printf(" -> "); dnfPrint(stdout, r); }
 	printf("\n");
+}
+/* a wrong result of op: known finding if the defect simulation explains it, violation otherwise */
+static void dnf_wrong(const char *kind, int opc, DNF a, const char *op, DNF b, DNF r, int natoms)
+{
+	if (dnf_explained(opc, opc == 0 ? b : a, opc == 0 ? 0 : b, r, natoms)) {
+		if (!dnf_known++) {
+			FILE *m = fmemopen(dnf_known_first, sizeof dnf_known_first - 1, "w");
+			if (m) { if (a) dnfPrint(m, a); fprintf(m, " %s ", op); if (b) dnfPrint(m, b); fprintf(m, " -> "); dnfPrint(m, r); fclose(m); }
+		}
+		return;
+	}
+	dnf_show(kind, a, op, b, r);
+}
+static void dnf_pair(int i, int j, int keep, int lvl)
+{
+	const unsigned full = (1u << NASG) - 1;
+	DNF a, o; unsigned ea, eo, ga, go;
+	cur[0] = lvl; cur[1] = i; cur[2] = j; curlen = 3;
+	a = dnfAnd(fs[i].d, fs[j].d); o = dnfOr(fs[i].d, fs[j].d);
+	ea = fs[i].tt & fs[j].tt; eo = fs[i].tt | fs[j].tt;
+	ga = dnf_tt(a); go = dnf_tt(o);
+	vh_seqs += 2; vh_steps += 2;
+	if (ga != ea) dnf_wrong("and", 1, fs[i].d, "and", fs[j].d, a, NA);
+	if (go != eo) dnf_wrong("or", 2, fs[i].d, "or", fs[j].d, o, NA);
+	if (dnfIsTrue(a) && ga != full) dnf_show("isTrue-unsound", fs[i].d, "and", fs[j].d, a);
+	if (dnfIsFalse(o) && go != 0) dnf_show("isFalse-unsound", fs[i].d, "or", fs[j].d, o);
+	/* operands must not have been changed */
+	if (dnf_tt(fs[i].d) != fs[i].tt || dnf_tt(fs[j].d) != fs[j].tt) dnf_show("operand-clobbered", fs[i].d, "and/or", fs[j].d, 0);
+	vh_outcome(((unsigned long long) ga << 16) | go);
+	/* stored formulas carry their ACTUAL truth table, so each operation is judged on its own operands */
+	if (keep) { dnf_add(a, ga); dnf_add(o, go); } else { dnfFree(a); dnfFree(o); }
 }
 static void dnf_all(int depth)
 {
@@ -512,33 +640,30 @@ static void dnf_all(int depth)
 	l1end = nf;
 	for (lvl = 1; lvl <= depth; lvl++) {
 		int end = nf, keep = (lvl < depth) || lvl == 1;
+		if (lvl >= 3) keep = 0;
 		for (i = start; i < end; i++) {
-			DNF n = dnfNot(fs[i].d); unsigned e = full & ~fs[i].tt;
+			DNF n = dnfNot(fs[i].d); unsigned e = full & ~fs[i].tt, got = dnf_tt(n);
 			vh_seqs++; vh_steps++;
 			cur[0] = lvl; cur[1] = i; cur[2] = -1; curlen = 3;
-			if (dnf_tt(n) != e) dnf_show("not", 0, "not", fs[i].d, n);
-			else { DNF nn = dnfNot(n); if (dnf_tt(nn) != fs[i].tt) dnf_show("notnot", 0, "not not", fs[i].d, nn); dnfFree(nn); }
-			if ((dnfIsTrue(n) != 0) != (e == full) && dnf_tt(n) == e && dnfIsTrue(n)) dnf_show("isTrue", 0, "not", fs[i].d, n);
-			vh_outcome(e + 7);
-			if (keep) dnf_add(n, e); else dnfFree(n);
+			if (got != e) dnf_wrong("not", 0, 0, "not", fs[i].d, n, NA);
+			else { DNF nn = dnfNot(n); if (dnf_tt(nn) != fs[i].tt) dnf_wrong("notnot", 0, 0, "not", n, nn, NA); dnfFree(nn); }
+			if (dnfIsTrue(n) && got != full) dnf_show("isTrue-unsound", 0, "not", fs[i].d, n);
+			if (dnfIsFalse(n) && got != 0) dnf_show("isFalse-unsound", 0, "not", fs[i].d, n);
+			vh_outcome(got + 7);
+			if (keep) dnf_add(n, got); else dnfFree(n);
 		}
-		for (i = 0; i < end; i++) {
+		if (lvl >= 3) {
+			/* half level: every level-(lvl-1) formula combined with every formula of level <= 1, both orders */
+			for (i = start; i < end; i++) {
+				if ((i % nshards) != shard) continue;
+				for (j = 0; j < l1end; j++) { dnf_pair(i, j, 0, lvl); dnf_pair(j, i, 0, lvl); }
+			}
+		}
+		else for (i = 0; i < end; i++) {
 			if ((i % nshards) != shard && lvl == depth && depth > 1) continue;
 			for (j = 0; j < end; j++) {
-				DNF a, o; unsigned ea, eo;
 				if (i < start && j < start) continue;
-				cur[0] = lvl; cur[1] = i; cur[2] = j; curlen = 3;
-				a = dnfAnd(fs[i].d, fs[j].d); o = dnfOr(fs[i].d, fs[j].d);
-				ea = fs[i].tt & fs[j].tt; eo = fs[i].tt | fs[j].tt;
-				vh_seqs += 2; vh_steps += 2;
-				if (dnf_tt(a) != ea) dnf_show("and", fs[i].d, "and", fs[j].d, a);
-				if (dnf_tt(o) != eo) dnf_show("or", fs[i].d, "or", fs[j].d, o);
-				if (dnfIsTrue(a) && ea != full) dnf_show("isTrue", fs[i].d, "and", fs[j].d, a);
-				if (dnfIsFalse(o) && eo != 0) dnf_show("isFalse", fs[i].d, "or", fs[j].d, o);
-				/* operands must not have been changed */
-				if (dnf_tt(fs[i].d) != fs[i].tt || dnf_tt(fs[j].d) != fs[j].tt) dnf_show("operand-clobbered", fs[i].d, "and/or", fs[j].d, 0);
-				vh_outcome(((unsigned long long) ea << 16) | eo);
-				if (keep) { dnf_add(a, ea); dnf_add(o, eo); } else { dnfFree(a); dnfFree(o); }
+				dnf_pair(i, j, keep, lvl);
 			}
 		}
 		if (lvl == 1) l1end = nf;
@@ -561,23 +686,14 @@ static void dnf_all(int depth)
 		}
 	}
 	printf("STAT dnf_formulas=%d level1=%d\n", nf, l1end);
+	if (dnf_known) printf("KNOWN mode=dnf cause=multi-atom-absorption count=%ld first=%s\n", dnf_known, dnf_known_first);
 }
 
 /* dnf with 10 atoms: deterministic chains, checked on all 1024 assignments */
-static int dnf_eval(DNF x, unsigned a)
-{
-	int i; Length j;
-	for (i = 0; i < x->argc; i++) {
-		DNF_And t = x->argv[i]; int ok = 1;
-		for (j = 0; j < t->argc; j++) { int at = t->argv[j]; int var = abs(at) - 1; if ((at > 0) != (int)((a >> var) & 1)) { ok = 0; break; } }
-		if (ok) return 1;
-	}
-	return 0;
-}
 static void dnf_big(void)
 {
 	enum { N = 10, NAS = 1 << N };
-	static unsigned char ta[NAS], tb[NAS];
+	static unsigned char ta[NAS], tb[NAS], tc[NAS];
 	int step, a, pat;
 	curmode = "dnf10";
 	for (pat = 0; pat < 24; pat++) {
@@ -588,24 +704,41 @@ static void dnf_big(void)
 			int i = (step * 3 + pat) % N + 1, j = (step * 7 + pat * 5 + 1) % N + 1;
 			DNF l = ((step + pat) & 2) ? dnfNotAtom(i) : dnfAtom(i);
 			DNF r = ((step + pat) & 4) ? dnfNotAtom(j) : dnfAtom(j);
-			DNF t = ((step + pat / 2) & 1) ? dnfAnd(l, r) : dnfOr(l, r);
+			int tand = ((step + pat / 2) & 1);
+			DNF t = tand ? dnfAnd(l, r) : dnfOr(l, r);
 			DNF nacc;
-			int useand = ((step + pat / 3) % 3 == 0), neg = ((step + pat) % 5 == 4);
+			int useand = ((step + pat / 3) % 3 == 0), neg = ((step + pat) % 5 == 4), bad = 0;
 			for (a = 0; a < NAS; a++) {
 				int li = ((a >> (i - 1)) & 1) ^ (((step + pat) & 2) ? 1 : 0);
 				int ri = ((a >> (j - 1)) & 1) ^ (((step + pat) & 4) ? 1 : 0);
-				tb[a] = ((step + pat / 2) & 1) ? (li && ri) : (li || ri);
+				tb[a] = tand ? (li && ri) : (li || ri);
 			}
-			nacc = useand ? dnfAnd(acc, t) : dnfOr(acc, t);
-			for (a = 0; a < NAS; a++) ta[a] = useand ? (ta[a] && tb[a]) : (ta[a] || tb[a]);
-			if (neg) { DNF n2 = dnfNot(nacc); nacc = n2; for (a = 0; a < NAS; a++) ta[a] = !ta[a]; }
 			cur[0] = pat; cur[1] = step; curlen = 2;
+			for (a = 0; a < NAS; a++) if (dnf_eval(t, a) != tb[a]) { bad = 1; break; }
+			if (bad) dnf_wrong("term", tand ? 1 : 2, l, tand ? "and" : "or", r, t, N);
+			for (a = 0; a < NAS; a++) tb[a] = dnf_eval(t, a);
+			nacc = useand ? dnfAnd(acc, t) : dnfOr(acc, t);
+			for (a = 0; a < NAS; a++) tc[a] = useand ? (ta[a] && tb[a]) : (ta[a] || tb[a]);
 			vh_seqs++; vh_steps++;
-			for (a = 0; a < NAS; a++) if (dnf_eval(nacc, a) != ta[a]) { vh_violation("mode=dnf10 kind=chain pat=%d step=%d assignment=%d", pat, step, a); break; }
+			bad = 0;
+			for (a = 0; a < NAS; a++) if (dnf_eval(nacc, a) != tc[a]) { bad = 1; break; }
+			if (bad) dnf_wrong("chain", useand ? 1 : 2, acc, useand ? "and" : "or", t, nacc, N);
+			for (a = 0; a < NAS; a++) ta[a] = dnf_eval(nacc, a);      /* continue from the ACTUAL value */
+			if (neg) {
+				DNF n2 = dnfNot(nacc);
+				bad = 0;
+				for (a = 0; a < NAS; a++) if (dnf_eval(n2, a) != !ta[a]) { bad = 1; break; }
+				if (bad) dnf_wrong("chain-not", 0, 0, "not", nacc, n2, N);
+				nacc = n2;
+				for (a = 0; a < NAS; a++) ta[a] = dnf_eval(nacc, a);
+				vh_seqs++; vh_steps++;
+			}
+			{ unsigned long long h = 7; for (a = 0; a < NAS; a += 37) VH_MIX(h, ta[a]); vh_outcome(h + pat * 131 + step); }
 			acc = nacc;
-			if (acc->argc > 400) break;
+			if (acc->argc > 300) break;
 		}
 	}
+	if (dnf_known) printf("KNOWN mode=dnf10 cause=multi-atom-absorption count=%ld first=%s\n", dnf_known, dnf_known_first);
 }
 
 /* ======================================================================== main */
